@@ -2,7 +2,7 @@
 
 PROP = dict(
     level="proof",
-    lean_modules=['PopsModel.Props.C11', 'PopsModel.Props.C11Hosts'],
+    lean_modules=['PopsModel.Props.C11', 'PopsModel.Props.C11Hosts', 'PopsModel.Props.NonVacuous.Host'],
     theorems=['Pops.C11_who_dies', 'Pops.C11_rate_zero', 'Pops.C11_eventual_death', 'Pops.C11_per_host'],
     commands=['hp.mortality', 'mh.mortality'],
     runs={
